@@ -83,6 +83,39 @@ def counterfactual_history(kind, sig, steps):
     raise vlib.ToolError(f"unknown counterfactual {kind}")
 
 
+def cex_steps(cx, sig):
+    """a call history printed by EqlogEval (element ids) as driver steps (handles: the k-th element
+    of a type the caller created); None if it mentions an element the caller did not create"""
+    handles = {}
+    steps = []
+
+    def h(ty, i):
+        return handles.get(ty, []).index(i) if i in handles.get(ty, []) else None
+    for o in cx["ops"]:
+        if o["op"] == "new":
+            handles.setdefault(o["ty"], []).append(o["id"])
+            steps.append({"op": "new", "ty": o["ty"]})
+        elif o["op"] == "insert":
+            args = [h(c, i) for c, i in zip(sig.rels[o["rel"]]["cols"], o["args"])]
+            if None in args:
+                return None
+            steps.append(histories.step_insert(o["rel"], args))
+        elif o["op"] == "equate":
+            a, b = h(o["ty"], o["a"]), h(o["ty"], o["b"])
+            if a is None or b is None:
+                return None
+            steps.append({"op": "equate", "ty": o["ty"], "a": a, "b": b})
+        elif o["op"] == "close":
+            steps.append({"op": "close"})
+        else:
+            steps.append({"op": "close_until", "stop": o["stop"]})
+    if cx.get("pc") != "idle":
+        steps.append({"op": "close_until", "stop": cx.get("nobs", 0)})
+    if steps and steps[-1]["op"] != "close":
+        steps.append({"op": "close"})
+    return steps
+
+
 def run(prop, tier, replay, make_plan, level="model_checking", panic_props=("C01",), explanation="", also_props=(), design=(), extra=None):
     v = vlib.Verdict(prop, tier, level)
     ths = theories.prepare()
@@ -106,10 +139,24 @@ def run(prop, tier, replay, make_plan, level="model_checking", panic_props=("C01
             elif "thorough_only" in kw:
                 kw.update(kw.pop("thorough_only"))
             sig, stages = ths[theory]
-            r = mcgen.eval_model_check(theory, sig, stages, module_path(theory), f"{prop.lower()}-eval-{theory}", **kw)
+            tag = theory + ("+plan" if kw.get("plan") else "")
+            # with the plan EXTRACTED from the generated module a refinement failure is a statement
+            # about an emitted artefact: TLC's counterexample (a call history) is replayed on the
+            # generated code below, and only what the real code then does can become a violation
+            r = mcgen.eval_model_check(theory, sig, stages, module_path(theory), f"{prop.lower()}-eval-{tag.replace('+', '-')}",
+                                       allow_violation=bool(kw.get("plan")), cex=bool(kw.get("plan")), **kw)
             plan.gen_states += r["distinct"]
             plan.gen_transitions += r["generated"]
-            design_info[theory] = {"EqlogEval_states": r["distinct"], "bounds": {k: x for k, x in kw.items() if k != "workers"}}
+            design_info[tag] = {"EqlogEval_states": r["distinct"], "bounds": {k: x for k, x in kw.items() if k != "workers"},
+                                "plan_rules": r.get("plan_rules", 0), "violated": r["violated"], "counterexamples_replayed": 0}
+            if r["violated"]:
+                for cx in r["prints"].get("CEX", [])[:8]:
+                    steps = cex_steps(cx, sig)
+                    if steps is not None:
+                        plan.add(theory, steps, -1)
+                        design_info[tag]["counterexamples_replayed"] += 1
+                vlib.log(f"[{prop}] design run {tag}: {r['violated']} - {design_info[tag]['counterexamples_replayed']} counterexample(s) "
+                         "handed to the replay on the generated code (a disagreement confined to the design model is drift)")
     if replay is None:
         # the pinned witnesses of recorded and repaired findings of this property are always run
         wfam = 10 ** 6
